@@ -1,0 +1,7 @@
+//go:build !verif
+
+package l4proxy
+
+// verifEv marks a linearization point for external conformance checking.
+// Without the verif build tag it is an empty function that the compiler inlines away.
+func verifEv(point string, obj any, ok bool) {}
